@@ -89,7 +89,7 @@ theorem base_of_open {cfg : Cfg} {pre post : List Ev} {id h : Nat} {s : MuxSt} {
       split at h2
       · rename_i hcond
         cases h2
-        let c0 : Conn := { id := id, base := countFor id s1.seen }
+        let c0 : Conn := { id := id, base := countFor id s1.seen, closed := s1.cfg.lateClosed && s1.closed }
         have hnew := run_stable (h := h) (c := c0) hr (by simp [c0, hcond.2.2])
         obtain ⟨c1, hc1, st⟩ := hnew
         rw [hc] at hc1; cases hc1
